@@ -4,7 +4,7 @@ import "golang.org/x/tools/go/ssa"
 
 func init() {
 	register("C04", runC04, propMeta{
-		Explanation: "Decides, for every rule set, the loop discipline of the sort model and its sorted selected variants: (O1) every sort of rule entities in the product orders by Salience descending on the slice being sorted; (O2) the slice each sequential loop ranges over is the container's SortRules or a local slice on which such a sort lies on every path (except when shorter than 2); (O3, rule A3) exactly one RuleEntity.Execute per iteration on the ranged element, its error tested on every path, the only ways out of the loop are the loop end, `err != nil && !continueOnError -> return non-nil error with nothing else running`, and the stop-tag break; with continue-on-error a failure is appended to the error list on every path to the next iteration; (O4) after the loop a nil error is returned only where the error list is known to be empty and a new error where it is non-empty. The builder's sort that produces SortRules is checked by O1 too. Not decided: that sort.SliceStable sorts (trusted), rule bodies. In the full build no path from the entry to the installing store avoids the sort, except over an edge on which a length test bounds the list to fewer than two rules.",
+		Explanation: "Decides, for every rule set, the loop discipline of the sort model and its sorted selected variants: (O1) every sort of rule entities in the product orders by Salience descending on the slice being sorted; (O2) the slice each sequential loop ranges over is the container's SortRules or a local slice on which such a sort lies on every path (except when shorter than 2); (O3, rule A3) exactly one RuleEntity.Execute per iteration on the ranged element, its error tested on every path, the only ways out of the loop are the loop end, `err != nil && !continueOnError -> return non-nil error with nothing else running`, and the stop-tag break; with continue-on-error a failure is appended to the error list on every path to the next iteration; (O4) after the loop a nil error is returned only where the error list is known to be empty and a new error where it is non-empty. The builder's sort that produces SortRules is checked by O1 too. Not decided: that sort.SliceStable sorts (trusted), rule bodies. In the full build no path from the entry to the installing store avoids the sort, except over an edge on which a length test bounds the list to fewer than two rules. The pool's sort-model methods call the engine method of their own name with their own arguments, each in its place (O7).",
 		Assumptions: []string{"sort.SliceStable is a stable sort by the given less function", "RuleEntity.Execute runs the rule once (C02/C09)"},
 		Trusted:     commonTrusted,
 	})
